@@ -287,6 +287,53 @@ func judge(p *Plan, obs []Obs, stderr string, exitCode int, timedOut bool) (fs [
 			}
 		}
 	}
+	// (5) the end of a run is reported: a basic task's (or hook's) command that exits by itself is announced (BASIC_TASK_TERMINATED)
+	// within 2 s of its exit, also when it leaves processes behind that still hold its output. Judged when nothing else was asked of
+	// the task between the start and 2.5 s after the exit.
+	if (p.Kind == "basic" || p.Kind == "hook") && p.Child.ExitAfterMs >= 0 && !p.Child.MissingBinary {
+		startAt, startStep := int64(-1), -1
+		for _, o := range obs {
+			if o.Kind != "op-end" || o.Step < 0 {
+				continue
+			}
+			st := p.Steps[o.Step]
+			if (p.Kind == "basic" && st.Event == "START" && o.State == "RUNNING") || (p.Kind == "hook" && st.Op == "trigger" && strings.Contains(o.Detail, "err=<nil>")) {
+				startAt, startStep = o.T, o.Step
+				break
+			}
+		}
+		if startAt >= 0 {
+			exitAt := startAt + int64(p.Child.ExitAfterMs)
+			horizon := int64(0)
+			for _, o := range obs {
+				if o.T > horizon {
+					horizon = o.T
+				}
+			}
+			for _, o := range obs {
+				if o.Kind == "op-start" && o.Step > startStep && o.T < horizon {
+					horizon = o.T
+				}
+			}
+			if horizon >= exitAt+2500 {
+				classes = append(classes, "child-exit-to-be-reported")
+				reported := false
+				for _, b := range btts {
+					if b.T >= startAt && b.T <= exitAt+2000 {
+						reported = true
+					}
+				}
+				for _, s := range statuses {
+					if terminal[s.State] && s.T >= startAt && s.T <= exitAt+2000 {
+						reported = true
+					}
+				}
+				if !reported {
+					add("child-exit-not-reported", "the %s task's command exited by itself about %d ms after its start (%d forked process(es) left behind); 2 s later neither BASIC_TASK_TERMINATED nor a final status had been reported", p.Kind, p.Child.ExitAfterMs, p.Child.Forks)
+				}
+			}
+		}
+	}
 	// (1) at most one terminal status, nothing after it
 	nTerm, firstTerm := 0, -1
 	for i, s := range statuses {
@@ -601,6 +648,10 @@ func TestFixed(t *testing.T) {
 	vh.Fixed(t, prop, "basic-kill-while-running", basicPlan(ChildSpec{ExitAfterMs: -1, Forks: 1}, conf, start, Step{DelayMs: 600, Op: "kill"}), run)
 	vh.Fixed(t, prop, "basic-kill-right-after-launch", basicPlan(lives, Step{DelayMs: 20, Op: "kill"}), run)
 	vh.Fixed(t, prop, "basic-stop-never-started", basicPlan(lives, conf, tr(0, "RESET", "CONFIGURED", "STANDBY"), Step{DelayMs: 300, Op: "kill"}), run)
+	leaves := ChildSpec{ExitAfterMs: 300, Forks: 1}
+	vh.Fixed(t, prop, "basic-command-exits-leaving-a-process-behind", basicPlan(leaves, conf, start, Step{DelayMs: 3500, Op: "kill"}), run)
+	vh.Fixed(t, prop, "hook-command-exits-leaving-a-process-behind", Plan{Kind: "hook", Child: leaves, HookTimeoutMs: 5000, OpTimeoutMs: 8000, SettleMs: 500,
+		Steps: []Step{{DelayMs: 300, Op: "trigger"}, {DelayMs: 3500, Op: "kill"}}}, run)
 	nobin := ChildSpec{ExitAfterMs: -1, MissingBinary: true}
 	vh.Fixed(t, prop, "basic-binary-missing-start-then-kill", basicPlan(nobin, conf, start, Step{DelayMs: 300, Op: "kill"}), run)
 	vh.Fixed(t, prop, "basic-binary-missing-start-stop-start-kill", basicPlan(nobin, conf, start, stop, tr(300, "START", "CONFIGURED", "RUNNING"), Step{DelayMs: 300, Op: "kill"}), run)
@@ -626,6 +677,8 @@ func TestFixed(t *testing.T) {
 	vh.Fixed(t, prop, "fairmq-walk-and-kill-while-running", directPlan(lives, fmqDev(nil), await, conf, start, Step{DelayMs: 300, Op: "kill"}), run)
 	vh.Fixed(t, prop, "fairmq-kill-device-refuses-reset-device", directPlan(lives, fmqDev(map[string]TransitionSpec{"RESET DEVICE": {Outcome: "refuse"}}), await, conf, start, Step{DelayMs: 300, Op: "kill"}), run)
 	vh.Fixed(t, prop, "fairmq-kill-configured-device-refuses-reset-task", directPlan(ChildSpec{ExitAfterMs: -1, Forks: 1}, fmqDev(map[string]TransitionSpec{"RESET TASK": {Outcome: "refuse"}}), await, conf, Step{DelayMs: 300, Op: "kill"}), run)
+	vh.Fixed(t, prop, "fairmq-configure-stuck-at-bind-rollback-refused-then-kill", directPlan(lives, fmqDev(map[string]TransitionSpec{"BIND": {Outcome: "refuse"}, "RESET DEVICE": {Outcome: "refuse"}}), await, conf, Step{DelayMs: 300, Op: "kill"}), run)
+	vh.Fixed(t, prop, "fairmq-configure-stuck-at-connect-rollback-refused-then-kill", directPlan(ChildSpec{ExitAfterMs: -1, Forks: 1}, fmqDev(map[string]TransitionSpec{"CONNECT": {Outcome: "refuse"}, "RESET DEVICE": {Outcome: "refuse"}}), await, conf, Step{DelayMs: 300, Op: "kill"}), run)
 	vh.Fixed(t, prop, "fairmq-configure-stuck-at-bind-then-kill", directPlan(lives, fmqDev(map[string]TransitionSpec{"BIND": {Outcome: "refuse"}}), await, conf, Step{DelayMs: 300, Op: "kill"}), run)
 	vh.Fixed(t, prop, "direct-kill-with-forks", directPlan(ChildSpec{ExitAfterMs: -1, Forks: 2}, readyDev, await, Step{DelayMs: 300, Op: "kill"}), run)
 	vh.Fixed(t, prop, "direct-kill-after-child-died", directPlan(ChildSpec{ExitAfterMs: 300, ExitCode: 1}, readyDev, await, Step{DelayMs: 1000, Op: "kill"}), run)
